@@ -18,9 +18,13 @@ def closure_partitions(tier):
                 parts.append([0, a, b, m])
         for m in (5, 24):       # type change: max_length stays out (field construction with a symbolic max_length is too slow for the quick tier)
             parts.append([0, 0, 1, m])
+        for (a, b) in [(4, 5), (5, 4), (1, 4), (4, 1)]:     # re-typing between / into / out of relation types
+            parts.append([0, a, b, 1])
         for t in (0, 1, 4, 5):
             for m in (3, 24):
                 parts.append([1, t, t, m])
+        for t in (0, 4, 5):
+            parts.append([1, t, t, 4])          # db_index alone (its default differs for relations)
         for t in (0, 4, 5):
             parts.append([2, t, t, 7])
         parts.append([3, 0, 0, 7])
@@ -40,39 +44,39 @@ def run(tier):
     obs = [
         Obligation('field_eq_diff', 'harness/c05.py', 'h_field_eq_diff',
                    partitions=[[t, m] for t in range(6) for m in ((3, 5, 17, 6, 18, 20) if tier == 'quick' else (31,))],
-                   timeout=(240 if tier == 'quick' else 1500),
+                   timeout=(240 if tier == 'quick' else 600),
                    what='FieldSignature: (a == b) iff a.diff(b) and b.diff(a) are empty; a == a.clone() with empty diff',
                    bounds='6 field types, relation target in 2 models, null/max_length/db_index/db_column absent or stated on either side with symbolic values (bool, int, str); quick: attributes two at a time, thorough: all four together',
                    functions=SIG[:1]),
         Obligation('eq_togethers', 'harness/c05.py', 'h_eq_togethers',
-                   partitions=[[a, b] for a in range(6) for b in range(6)], timeout=(240 if tier == 'quick' else 1500),
+                   partitions=[[a, b] for a in range(6) for b in range(6)], timeout=(240 if tier == 'quick' else 600),
                    what='Model/App/Project signature: == iff diff empty both ways; Diff(s, s) and Diff(s, clone) empty',
                    bounds='unique_together x index_together from 6 values each side (incl. reordered and overlapping tuples)',
                    functions=SIG),
         Obligation('eq_indexes', 'harness/c05.py', 'h_eq_indexes',
-                   partitions=[[a, b] for a in range(nk) for b in range(nk)], timeout=(240 if tier == 'quick' else 1500),
+                   partitions=[[a, b] for a in range(nk) for b in range(nk)], timeout=(240 if tier == 'quick' else 600),
                    what='same, Meta.indexes: two slots per side from 6 index kinds (named/unnamed, ordering prefix, attrs, expression index with a condition) with optional reordering',
                    bounds='5^4 x 2^2 index-list pairs', functions=SIG),
         Obligation('eq_constraints', 'harness/c05.py', 'h_eq_constraints',
-                   partitions=[[a, b] for a in range(3) for b in range(3)], timeout=(240 if tier == 'quick' else 1500),
+                   partitions=[[a, b] for a in range(3) for b in range(3)], timeout=(240 if tier == 'quick' else 600),
                    what='same, Meta.constraints (two slots per side, reordering) and db_table_comment',
                    bounds='3^4 x 2^2 constraint-list pairs; comments from {None, "", x, y}', functions=SIG),
         Obligation('closure_field', 'harness/c05.py', 'h_closure_field', partitions=closure_partitions(tier),
-                   timeout=(240 if tier == 'quick' else 1500),
+                   timeout=(240 if tier == 'quick' else 600),
                    what='Diff(old, new).evolution() simulated on clone(old) leaves no residual difference from new (either direction), for one field changed in place / added / deleted / model deleted',
                    bounds=('quick: 4 (old type, new type) pairs for in-place change, 4 types added, 3 deleted; attributes varied two at a time (pairs null+max_length, null+db_index, unique+db_column, max_length+db_column), values symbolic; default of the model field symbolic'
                            if tier == 'quick' else 'thorough: all 36 type pairs, all five attributes together'),
                    functions=CLOS),
         Obligation('closure_togethers', 'harness/c05.py', 'h_closure_togethers',
-                   partitions=[[a, b] for a in range(6) for b in range(6)], timeout=(240 if tier == 'quick' else 1500),
+                   partitions=[[a, b] for a in range(6) for b in range(6)], timeout=(240 if tier == 'quick' else 600),
                    what='hint closure for unique_together / index_together changes',
                    bounds='6^4 (old, new) value combinations', functions=CLOS),
         Obligation('closure_indexes', 'harness/c05.py', 'h_closure_indexes',
-                   partitions=[[a, b] for a in range(6) for b in range(6)], timeout=(240 if tier == 'quick' else 1500),
+                   partitions=[[a, b] for a in range(6) for b in range(6)], timeout=(240 if tier == 'quick' else 600),
                    what='hint closure for Meta.indexes and Meta.constraints changes',
                    bounds='indexes: 6^4 x 2 (old two slots, new two slots, reordered; 6 kinds incl. an expression index with a condition); constraints: 3^3 x 2', functions=CLOS),
         Obligation('closure_meta_mix', 'harness/c05.py', 'h_closure_meta_mix',
-                   partitions=[[a, b] for a in range(3) for b in range(3)], timeout=(240 if tier == 'quick' else 1500),
+                   partitions=[[a, b] for a in range(3) for b in range(3)], timeout=(240 if tier == 'quick' else 600),
                    what='hint closure when unique_together, index_together, indexes and constraints of one model change in the same diff',
                    bounds='2^4 togethers x 3^2 one index slot x 3^2 one constraint slot (db_table_comment: not changeable on SQLite, outside)', functions=CLOS),
     ]
